@@ -22,6 +22,14 @@ pub fn misuse_call<C: SimCfg>(s: &mut P2PSession<C>, call: &Api, viol: &mut Vec<
                 other => bad("c16.misuse_not_rejected", format!("network_stats({handle}) returned {other:?} (local={local}, known={known})")),
             }
         }
+        Api::DisconnectMisuse { handle } => match s.disconnect_player(*handle) {
+            Err(GgrsError::InvalidRequest { .. }) => {}
+            other => bad("c16.misuse_not_rejected", format!("disconnect_player({handle}) for a local or unknown handle returned {other:?}")),
+        },
+        Api::SetDelayMisuse { handle, delay } => match s.set_input_delay(*handle, *delay) {
+            Err(GgrsError::InvalidRequest { .. }) => {}
+            other => bad("c16.misuse_not_rejected", format!("set_input_delay({handle}, {delay}) for a non-local handle returned {other:?}")),
+        },
         _ => {}
     }
 }
